@@ -454,6 +454,10 @@ def program_st(draw, **opts):
                         blobs[bp] += b"\x55"
                     body[pos:pos] = [{"k": "insert", "path": bp}]
                 elif opts.get("includes"):
+                    if ninc and draw(st.integers(0, 3)) == 0:
+                        # the file included last, once more (a new instance of it, or nothing at all if it says .once)
+                        body[pos:pos] = [{"k": "include", "path": ipath}]
+                        continue
                     ninc += 1
                     ipath = draw(include_tree(files, blobs, opts, f"i{ninc}", 1))
                     body[pos:pos] = [{"k": "include", "path": ipath}]
@@ -514,6 +518,8 @@ def include_tree(draw, files, blobs, opts, tag, depth):
         rel = posixpath.relpath(child, posixpath.dirname(path))
         at = draw(st.sampled_from(even_points(body)))
         body[at:at] = [{"k": "include", "path": rel}]
+    if draw(st.integers(0, 2)) == 0:
+        body.insert(0, {"k": "once"})       # no effect on a file included once; drops every further inclusion
     files[path] = body
     return path
 
